@@ -1,12 +1,88 @@
-"""C04 - decided on the two concurrent protocols (see concrun.py)."""
+"""C04 - decided on the two concurrent protocols (see concrun.py), plus dataset-level histories of the
+prefetching stages: several iterations of ONE dataset object, consecutively and in flight at the same
+time (also over a per-epoch reshuffle, where every iteration has its own order), each compared with
+what it must deliver."""
+import random
+import warnings
+
+import numpy as np
+
+import common
 import concrun
 
 WHICH = ('C04',)
 
 
+def inflight_cases(rng):
+    import lazy_dataset
+    common.gc_point()
+    fails = []
+    n = rng.randint(2, 12)
+    w, b = rng.choice([(1, 1), (1, 3), (2, 2), (2, 4), (3, 3), (3, 5)])
+    seed = rng.randrange(1 << 30)
+    kind = rng.choice(['prefetch', 'prefetch', 'parmap'])
+    # only the multi-worker prefetch freezes its input per iteration; a reshuffle iterated directly by two
+    # iterators at once is the known finding F10 (C12), not a matter of the prefetching stage
+    reshuffle = rng.random() < 0.7 and kind == 'prefetch' and w >= 2
+    keyed = rng.random() < 0.3
+
+    def f(x):
+        return x * 10
+    src = {f'k{j}': j for j in range(n)} if keyed else list(range(n))
+    with warnings.catch_warnings():
+        warnings.simplefilter('ignore')
+        base = lazy_dataset.new(src)
+        if reshuffle:
+            base = base.shuffle(reshuffle=True, rng=np.random.RandomState(seed))
+        ds = base.map(f).prefetch(w, b) if kind == 'prefetch' else base.map(f, num_workers=w, buffer_size=b)
+        want = sorted(x * 10 for x in range(n))
+        k = rng.randrange(0, n)
+        its = [iter(ds)]
+        got = [[], []]
+        try:
+            for _ in range(k):
+                got[0].append(next(its[0]))
+            its.append(iter(ds))                    # a second iteration of the same object, the first still in flight
+            order = [rng.randrange(2) for _ in range(4 * n)]
+            alive = [True, True]
+            for who in order + [0] * (2 * n) + [1] * (2 * n):
+                if not alive[who]:
+                    continue
+                try:
+                    got[who].append(next(its[who]))
+                except StopIteration:
+                    alive[who] = False
+        except Exception as e:  # noqa
+            fails.append(('iteration_in_flight_raises', {'kind': kind, 'n': n, 'workers': w, 'buffer': b, 'reshuffle': reshuffle, 'err': repr(e)[:200]}))
+            return fails
+        for i, g in enumerate(got):
+            ok = (sorted(g) == want) if reshuffle else (g == [x * 10 for x in range(n)])
+            if not ok:
+                fails.append(('iteration_in_flight_not_transparent', {'kind': kind, 'n': n, 'workers': w, 'buffer': b, 'reshuffle': reshuffle, 'seed': seed,
+                                                                      'first_consumed_before_second_started': k, 'iteration': i, 'delivered': g,
+                                                                      'expected': 'each example exactly once' + ('' if reshuffle else ', in source order')}))
+                break
+    return fails
+
+
 def run(rep):
-    return concrun.run(rep, 'C04', WHICH)
+    concrun.run(rep, 'C04', WHICH)
+    rng = random.Random(rep.seed * 67 + 4)
+    n = 80 if rep.tier == 'quick' else 2000
+    fails = []
+    for _ in range(n):
+        fails += inflight_cases(rng)
+    seen = set()
+    for cl, det in fails:
+        if (cl, det['kind']) not in seen and len(rep.violations) < 4:
+            seen.add((cl, det['kind']))
+            rep.violation({'property': 'C04', 'kind': 'oracle-failure', 'clause': cl, 'detail': det})
+    rep.coverage['iterations_in_flight'] = {'cases': n, 'failures': len(fails)}
+    return rep
 
 
 def replay(j):
+    if str(j.get('clause', '')).startswith('iteration_in_flight'):
+        print(j)
+        return 1
     return concrun.replay('C04', WHICH, j)
